@@ -586,6 +586,16 @@ func addExtras(r *runner.Rand, f *mp4.Fragment, fr *Frag) error {
 		fr.Extras = append(fr.Extras, "traf/"+kind+"@"+where)
 		insertChild(&traf.Children, b, where)
 	}
+	if r.Chance(1, 4) && traf.Trun != nil {
+		// a sample group that is not protection signalling (pre-roll): sgpd + sbgp 'roll'
+		sgpd := &mp4.SgpdBox{Version: 1, GroupingType: "roll", DefaultLength: 2,
+			SampleGroupEntries: []mp4.SampleGroupEntry{&mp4.RollSampleGroupEntry{RollDistance: int16(-1 - r.Intn(3))}}}
+		sbgp := &mp4.SbgpBox{GroupingType: "roll", SampleCounts: []uint32{traf.Trun.SampleCount()}, GroupDescriptionIndices: []uint32{65537}}
+		where := r.PickStr("end", "before-trun")
+		fr.Extras = append(fr.Extras, "traf/sgpd+sbgp-roll@"+where)
+		insertChild(&traf.Children, sgpd, where)
+		insertChild(&traf.Children, sbgp, where)
+	}
 	for nm := r.PickInt(0, 0, 1, 1, 2, 3); nm > 0; nm-- {
 		kind := r.PickStr("free", "unknown", "pssh", "pssh")
 		b, err := mk(kind)
